@@ -364,7 +364,7 @@ def c13_steps(tier, seed):
     st = [native("pipe-scenarios", ["w_pipe", "--seed", seed, "--cycles", 10000 if q else 100000], timeout=400 if q else 1800)]
     st.append(strace("pipe-strace", ["w_strace", "--what", "pipe"], oracle="c13"))
     # the iterator's own write end (backend.rs): never written to once closed, also for a delivery during the owner's drop
-    st.append(native("iterator-write-end", ["w_instance", "--seed", seed + 5, "--scripts", 300 if q else 5000, "--concurrent", 0], also=["C12"], timeout=600))
+    st.append(native("iterator-write-end", ["w_instance", "--seed", seed + 5, "--scripts", 300 if q else 5000, "--concurrent", 60 if q else 600], also=["C12"], timeout=600))
     return st
 
 
